@@ -900,7 +900,56 @@ func FieldOf(addr ssa.Value) (*types.Named, string, ssa.Value) {
 	if !ok {
 		return nil, "", nil
 	}
+	// a field of a grouping struct (an unexported struct type that exists only as one by-value field, named or
+	// embedded, of one other struct): the field belongs to the struct that holds the group
+	if inner, ok := fa.X.(*ssa.FieldAddr); ok && isGroupingStruct(n) {
+		if on, _, obase := FieldOf(inner); on != nil {
+			return on, st.Field(fa.Field).Name(), obase
+		}
+	}
 	return n, st.Field(fa.Field).Name(), fa.X
+}
+
+var groupingMemo = map[*types.Named]int{}
+
+// isGroupingStruct: n is an unexported go-nfsd struct type whose only use as a
+// field type is one by-value field of one struct of its own package.
+func isGroupingStruct(n *types.Named) bool {
+	if v, ok := groupingMemo[n]; ok {
+		return v == 1
+	}
+	groupingMemo[n] = 2
+	if n.Obj().Pkg() == nil || n.Obj().Exported() || !strings.HasPrefix(n.Obj().Pkg().Path(), modPath) {
+		return false
+	}
+	if _, ok := n.Underlying().(*types.Struct); !ok {
+		return false
+	}
+	uses := 0
+	sc := n.Obj().Pkg().Scope()
+	for _, name := range sc.Names() {
+		tn, ok := sc.Lookup(name).(*types.TypeName)
+		if !ok {
+			continue
+		}
+		st, ok := tn.Type().Underlying().(*types.Struct)
+		if !ok {
+			continue
+		}
+		for i := 0; i < st.NumFields(); i++ {
+			ft := st.Field(i).Type()
+			if types.Identical(ft, n) {
+				uses++
+			} else if derefNamed(ft) == n {
+				return false // held by pointer somewhere: an object of its own
+			}
+		}
+	}
+	if uses == 1 {
+		groupingMemo[n] = 1
+		return true
+	}
+	return false
 }
 
 // FieldWrite describes a store into a struct field, or into an element of a
